@@ -1,12 +1,12 @@
 #!/bin/bash
 # integrator helper: run checks of THIS /verif commit (plus working-tree files) against a scratch worktree of /repo
 # with a patch applied, without touching /repo or /verif/build.
-#   tools/seedrun.sh <name> <patch.diff|-> <ID> [<ID> ...]        (env: TIER=quick|thorough, SEED=1, KEEP=1, REVERT=<commit> to revert a /repo commit instead of a patch)
+#   tools/seedrun.sh <name> <patch.diff|-> <ID> [<ID> ...]        (env: TAG=<output dir name>, TIER=quick|thorough, SEED=1, KEEP=1, REVERT=<commit> to revert a /repo commit instead of a patch)
 # Layout: /var/tmp/iso/<name>/{repo,verif,icinga}; results in /var/tmp/iso/out/<name>/<ID>.log (+ replay files).
 set -e
 NAME=$1; PATCH=$2; shift 2
 ISO=/var/tmp/iso/$NAME
-OUT=/var/tmp/iso/out/$NAME
+OUT=/var/tmp/iso/out/${TAG:-$NAME}
 mkdir -p "$ISO" "$OUT"
 if [ ! -d "$ISO/repo" ]; then git -C /repo worktree add --detach "$ISO/repo" HEAD >/dev/null 2>&1; fi
 git -C "$ISO/repo" checkout -q -- . ; git -C "$ISO/repo" clean -qfd
